@@ -14,11 +14,11 @@ METHODS = {8: ("unimock::mock::std::process::TerminationMock::report", 0),     #
            14: ("DMock::p_ref", 1), 15: ("DMock::p_mut", 1), 16: ("DMock::p_val", 1), 17: ("DMock::p_rc", 1),
            18: ("DMock::p_arc", 1), 19: ("DMock::p_pin", 1), 20: ("DMock::m_mut", 1),
            23: ("DMock::r_rc", 1), 24: ("DMock::p_rc2", 1), 29: ("DMock::r_arc", 1), 30: ("DMock::p_arc2", 1),
-           33: ("DMock::r_val", 1), 34: ("DMock::p_val2", 1)}
-HAS_DEFAULT = {2, 3, 14, 15, 16, 17, 18, 19, 24, 30, 34}
+           33: ("DMock::r_val", 1), 34: ("DMock::p_val2", 1), 35: ("DMock::p_rc3", 1)}
+HAS_DEFAULT = {2, 3, 14, 15, 16, 17, 18, 19, 24, 30, 34, 35}
 HAS_UNMOCK_ARM = {0, 2, 10, 12, 13}          # 20 has an unmock_with entry but no arm (F1)
-CONSUMING = {16, 17, 18, 23, 24, 27, 28, 29, 30, 33, 34}             # by value, sole-owner Rc / Arc
-PROVIDED_D = [14, 15, 16, 17, 18, 19, 21, 22, 24, 26, 27, 28, 30, 32, 34]
+CONSUMING = {16, 17, 18, 23, 24, 27, 28, 29, 30, 33, 34, 35}             # by value, sole-owner Rc / Arc
+PROVIDED_D = [14, 15, 16, 17, 18, 19, 21, 22, 24, 26, 27, 28, 30, 32, 34, 35]
 
 
 def rust_pat(mid, p):
